@@ -165,13 +165,13 @@ def run_shard(ctx):
     q = ctx.quick()
     picks = st.lists(st.integers(0, 10**6), min_size=2, max_size=2)
     for name, strat, n in (
-        ("commands", gen.commands(L), 60 if q else 1200),
-        ("responses", gen.responses(L), 60 if q else 1200),
-        ("structures", gen.structures(L), 100 if q else 2000),
-        ("streams", gen.streams(L, max_pairs=2), 40 if q else 600),
+        ("commands", gen.commands(L, rare=False), 60 if q else 1200),
+        ("responses", gen.responses(L, rare=False), 60 if q else 1200),
+        ("structures", gen.structures(L, rare=False), 100 if q else 2000),
+        ("streams", gen.streams(L, max_pairs=2, rare=False), 40 if q else 600),
     ):
         ctx.run_given(st.tuples(strat, picks), lambda ex: check_case(ctx, L, ex), ctx.share(n), name=name)
-    ctx.run_given(st.tuples(gen.streams(L, max_pairs=2), st.data()), lambda ex: check_frontends(ctx, L, ex), ctx.share(300 if q else 5000), name="frontends")
+    ctx.run_given(st.tuples(gen.streams(L, max_pairs=2, rare=False), st.data()), lambda ex: check_frontends(ctx, L, ex), ctx.share(300 if q else 5000), name="frontends")
 
 
 def replay(ctx, payload):
